@@ -427,6 +427,14 @@ class ConstEval:
         f = node.func
         if node.keywords and not (isinstance(f, ast.Name) and f.id in ('sorted', 'dict')):
             raise NotConst('keyword call')
+        if isinstance(f, ast.Name) and f.id == 'isinstance' and f.id not in env and len(node.args) == 2 and not node.keywords:
+            types = {'int': int, 'str': str, 'bool': bool, 'float': float, 'list': list, 'tuple': tuple, 'set': set, 'dict': dict,
+                     'frozenset': frozenset, 'bytes': bytes}
+            tn = node.args[1]
+            elts = tn.elts if isinstance(tn, ast.Tuple) else [tn]
+            if all(isinstance(e, ast.Name) and e.id in types and self.prog.resolve(mod, e.id) is None for e in elts):
+                return isinstance(ev(node.args[0]), tuple(types[e.id] for e in elts))
+            raise NotConst('isinstance with a non-builtin type')
         if isinstance(f, ast.Name) and f.id not in env:
             b = self.prog.resolve(mod, f.id)
             if f.id in _SAFE_BUILTINS and b is None:
